@@ -2,6 +2,7 @@
 
 mod util;
 mod c01;
+mod c04;
 mod c12;
 mod c13;
 mod c14;
@@ -10,6 +11,7 @@ mod c20;
 fn main() {
     vcore::main_for(|id| match id {
         "C01" => Some(c01::check()),
+        "C04" => Some(c04::check()),
         "C12" => Some(c12::check()),
         "C13" => Some(c13::check()),
         "C14" => Some(c14::check()),
